@@ -17,10 +17,7 @@ SHIELD_ATTRS = ("_shield", "shield")
 def walker_funcs(ctx):
     out = [ctx.fn("CancelScope._effectively_cancelled", A), ctx.fn("AsyncIOBackend.checkpoint_if_cancelled", A),
            ctx.fn("AsyncIOBackend.current_effective_deadline", A), ctx.fn("AsyncIOBackend.check_cancelled", A)]
-    if any(f.module.endswith(A) for f in ctx.repo.funcs.get("CancelScope._restart_cancellation", [])):
-        out.append(ctx.fn("CancelScope._restart_cancellation", A))
-    else:
-        out.append(ctx.fn("CancelScope._restart_cancellation_in_parent", A))
+    out.append(ctx.fn("CancelScope._restart_cancellation", A))
     return out
 
 
@@ -158,17 +155,16 @@ def check_cic(ctx, rule):
 def restart_walker(ctx, rule):
     """the restart helper(s): delegation to the parent, the walk itself (cancelled before shield), and delivery restarted in the
     closest cancelled scope whose callback has died down"""
-    has_new = any(f.module.endswith(A) for f in ctx.repo.funcs.get("CancelScope._restart_cancellation", []))
-    rp = ctx.fn("CancelScope._restart_cancellation_in_parent", A)
-    walker = ctx.fn("CancelScope._restart_cancellation", A) if has_new else rp
-    if has_new:
-        s = ctx.sites(rp, "self._parent_scope._restart_cancellation()")
-        ok = len(s) == 1
-        if ok:
-            fa = ctx.facts_at(rp, s[0][0])
-            ok = bool(fa) and all(F("self._parent_scope is not None") in x for x in fa)
-        ctx.ob(rule, rp, "_restart_cancellation_in_parent delegates to the parent's restart", ok,
-               detail="" if ok else "no `self._parent_scope._restart_cancellation()` under `self._parent_scope is not None`", by=("delegation",))
+    walker = ctx.fn("CancelScope._restart_cancellation", A)
+    # "restart in the enclosing scope" is analysed in its inlined form (core.INLINE_ALWAYS): wherever a scope asks its parent to
+    # restart, a parent exists
+    n = 0
+    for f in ctx.repo.methods("CancelScope", A).values():
+        for st, _ in ctx.sites(f, "self._parent_scope._restart_cancellation()"):
+            n += 1
+            ctx.require_at(rule, f, st, [["self._parent_scope is not None"]], instance="the enclosing scope is asked to restart only if there is one",
+                           what="restart in the parent")
+    ctx.need(rule, walker, "sites that restart delivery in the enclosing scope (`self._parent_scope._restart_cancellation()`)", n, 1)
     v = check_walker(ctx, rule, walker)
     if v:
         ds = ctx.sites(walker, f"{v}._deliver_cancellation({v})")
